@@ -110,6 +110,7 @@ func (c07) Plan(tier string, seed int64) []mon.Workload {
 		{Name: "code-points", N: int64(len(c07CodePoints) * len(c07CPForms) * len(c07CPContexts) * len(c07Styles)), Exhaustive: true},
 		{Name: "two-literals", N: int64(len(c07PairBodies) * len(c07Styles) * len(c07Styles) * 2), Exhaustive: true},
 		{Name: "ints", N: int64(len(c07IntList)), Exhaustive: true},
+		{Name: "number-neighbours", N: int64(len(c07NbLits) * len(c07NbForms)), Exhaustive: true},
 		{Name: "floats", N: fl},
 		{Name: "keywords", N: int64(len(c07Keywords)), Exhaustive: true},
 	}
@@ -325,6 +326,9 @@ func (k c07) spelling(c *mon.Ctx, workload string, i int64) string {
 		return sp
 	case "ints":
 		return c07IntList[i]
+	case "number-neighbours":
+		src, _ := c07Neighbour(i)
+		return src
 	case "keywords":
 		return c07Keywords[i]
 	}
@@ -390,6 +394,80 @@ var c07Prev struct {
 }
 
 // rhs parses `x = <sp>` and returns the single right-hand node.
+// number-neighbours (exhaustive): a numeric literal with another token glued
+// to it (no white space): the literal ends where its spelling ends - a hex
+// digit e is not an exponent, a sign after an exponent's digits is an
+// operator - and denotes its value with the neighbour as the other operand.
+var c07NbLits = []string{"7", "30", "0x1e", "0xFE", "0XEE", "0xe", "0XE", "0x1f", "0x10", "0xabcde", "0x1E", "1e5", "1E5", "2.5", "1e+2", "1e-2", "1E+2", "0.5", "9223372036854775807", "0x7fffffffffffffff", "0x7ffffffffffffffe"}
+var c07NbForms = []string{"L+1", "L-1", "L+0x1e", "L-0xE", "L*2", "L/2", "L%2", "L==1", "L<2", "L>=2", "L+x", "L-x", "L+1.5", "L-1e1", "1+L", "1-L", "x-L", "x+L", "0xe+L", "0xE-L", "1e1-L", "L+L", "L-L", "L +1", "L- 1", "L&&1", "L||0"}
+
+func c07NumVal(sp string) *gt.T {
+	if strings.HasPrefix(sp, "0x") || strings.HasPrefix(sp, "0X") {
+		v, err := strconv.ParseInt(sp[2:], 16, 64)
+		if err != nil {
+			panic(err)
+		}
+		return gt.Int(v)
+	}
+	if v, err := strconv.ParseInt(sp, 10, 64); err == nil {
+		return gt.Int(v)
+	}
+	f, err := strconv.ParseFloat(sp, 64)
+	if err != nil {
+		panic(err)
+	}
+	return gt.Float(f)
+}
+
+func c07Neighbour(i int64) (src string, want *gt.T) {
+	form := c07NbForms[int(i)%len(c07NbForms)]
+	lit := c07NbLits[int(i)/len(c07NbForms)]
+	// split the form at its operator (the only run of operator bytes)
+	k := strings.IndexAny(form, "+-*/%=<>&|")
+	e := k
+	for e < len(form) && strings.IndexByte("+-*/%=<>&|", form[e]) >= 0 {
+		e++
+	}
+	op := form[k:e]
+	operand := func(t string) *gt.T {
+		t = strings.TrimSpace(t)
+		switch t {
+		case "L":
+			return c07NumVal(lit)
+		case "x":
+			return gt.Ident("x")
+		}
+		return c07NumVal(t)
+	}
+	want = gt.Assign("=", gt.Ident("y"), gt.Bin(op, operand(form[:k]), operand(form[e:])))
+	return "y = " + strings.ReplaceAll(form, "L", lit) + "\n", want
+}
+
+func (k c07) neighbours(c *mon.Ctx, i int64) {
+	src, want := c07Neighbour(i)
+	obs := drive.Parse("c07.p", src)
+	c.Eval(1)
+	c.Nontrivial(src)
+	cs := map[string]any{"source": src}
+	if obs.Panic != nil || obs.Stderr != "" {
+		c.Violate("literal-crash", fmt.Sprintf("parsing %q crashed: %v", src, obs.Panic), cs)
+		return
+	}
+	if obs.Err != nil {
+		c.Violate("numeric-literal-rejected", fmt.Sprintf("%q is two valid literals around an operator but was rejected: %v", src, obs.Err), cs)
+		return
+	}
+	stmts, err := gt.FromStmts(obs.Stmts)
+	if err != nil || len(stmts) != 1 {
+		c.Violate("numeric-literal-wrong-tree", fmt.Sprintf("%q did not parse to one statement (%v)", src, err), cs)
+		return
+	}
+	if d := gt.Diff(want, stmts[0]); d != "" {
+		c.Violate("numeric-literal-wrong-value", fmt.Sprintf("%q: expected %s, parsed as %s (%s)", src, want.Dump(), stmts[0].Dump(), d), cs)
+	}
+	c.Cell("number_cells", "neighbour")
+}
+
 func c07Parse(sp string) (node *gt.T, obs drive.ParseObs, note string) {
 	src := "x = " + sp
 	obs = drive.Parse("c07.p", src)
@@ -410,6 +488,8 @@ func (k c07) Run(c *mon.Ctx, workload string, i int64) {
 	switch workload {
 	case "two-literals":
 		k.twoLiterals(c, i)
+	case "number-neighbours":
+		k.neighbours(c, i)
 	case "strings-exhaustive", "strings-random", "code-points":
 		sp, style := c07String(c, workload, i)
 		if sp == "" || !utf8.ValidString(sp) {
